@@ -91,16 +91,20 @@ func run(c *core.Ctx) {
 	rng := c.Rand("c20")
 	var jobs []ccbreplay.Job
 	nScripts := 0
-	// quick: every script with at most one rogue connection and at most three environment
-	// steps, plus a seeded sample of the rest up to ~220 dials per configuration;
+	// quick: every script with at most two environment steps, a sample of those with at most one
+	// rogue connection and three environment steps, plus a seeded sample of the rest up to ~150 further dials per configuration;
 	// thorough: every script of the one-broker configurations (small ones twice, with
 	// different concrete members), a seeded sample of 4000 of each two-broker configuration
 	for _, g := range gens {
 		t := tabs[g.name]
 		nScripts += len(t.Scripts)
-		var small, rest [][]ccbreplay.Ev
+		var core, small, rest [][]ccbreplay.Ev
 		for _, sc := range t.Scripts {
-			if ccbreplay.Rogues(sc) <= 1 && len(sc) <= 5 {
+			if len(sc) <= 4 {
+				// launch, at most two environment steps, stop: always replayed, so that every
+				// arrival / message kind is seen alone and directly before / after every other
+				core = append(core, sc)
+			} else if ccbreplay.Rogues(sc) <= 1 && len(sc) <= 5 {
 				small = append(small, sc)
 			} else {
 				rest = append(rest, sc)
@@ -108,7 +112,7 @@ func run(c *core.Ctx) {
 		}
 		rng.Shuffle(len(rest), func(i, j int) { rest[i], rest[j] = rest[j], rest[i] })
 		rng.Shuffle(len(small), func(i, j int) { small[i], small[j] = small[j], small[i] })
-		budget := 220
+		budget := 150
 		if c.Thorough() {
 			budget = 4000
 			if g.nb == 1 {
@@ -119,6 +123,8 @@ func run(c *core.Ctx) {
 		if len(pick) > budget*2/3 && !c.Thorough() {
 			pick = pick[:budget*2/3]
 		}
+		pick = append(append([][]ccbreplay.Ev{}, core...), pick...)
+		budget += len(core)
 		if n := budget - len(pick); n > 0 {
 			if n > len(rest) {
 				n = len(rest)
@@ -160,5 +166,5 @@ func run(c *core.Ctx) {
 		c.Broken("C20: %d of %d dials produced scripts outside the generated set (timing assumptions do not hold on this machine)", st.UnknownScript, len(jobs))
 	}
 	c.Set("exhaustive", c.Thorough())
-	c.Set("rule", "behaviours = every interleaving of environment steps (broker replies ok/fail/none; legitimate and rogue reverse connections: wrong id, empty id, id of an earlier request, id of the concurrent attempt, garbage, immediate close, stall; caller cancellation) with the requester's internal steps, for 1 and 2 brokers, standard and proxy mode, printed by TLC from Gen_CCBDial; behaviours with the same environment script form its set of admissible outcomes; each script is one REAL ccb.Dial against scripted brokers built on cedar's server package; abstract classes expand to concrete members by a seeded salt; quick replays the small scripts and a seeded sample of the rest (about 220 dials per configuration), thorough every script of the one-broker configurations and 4000 sampled scripts of each two-broker configuration; non-trivial = script with at least one environment step besides launch and stop")
+	c.Set("rule", "behaviours = every interleaving of environment steps (broker replies ok/fail/none; legitimate and rogue reverse connections: wrong id, empty id, id of an earlier request, id of the concurrent attempt, garbage, immediate close, stall; caller cancellation) with the requester's internal steps, for 1 and 2 brokers, standard and proxy mode, printed by TLC from Gen_CCBDial; behaviours with the same environment script form its set of admissible outcomes; each script is one REAL ccb.Dial against scripted brokers built on cedar's server package; abstract classes expand to concrete members by a seeded salt; quick replays every script with at most two environment steps and a seeded sample of the rest (about 150 further dials per configuration), thorough every script of the one-broker configurations and 4000 sampled scripts of each two-broker configuration; non-trivial = script with at least one environment step besides launch and stop")
 }
